@@ -20,9 +20,9 @@ The full statement is `dep_roundtrip_full_statement`.  NOT proved of it: (1) URL
 fragment and wheel URLs; git locations outside the restricted grammar;
 (2) constraints the printer spells with a wildcard (`==X.*`, `!=X.*`) or as a disjunction; (3) dependencies that are
 members of an extra (`in_extras ≠ []`: the `extra == …` clause `to_pep_508` appends); (4) markers outside C13's domain
-(`in` / `not in`, `~=`, `platform_release`); (5) two side conditions on the printed text that are kept as hypotheses:
-no ` #` in it (`NoComment`; FALSE without it: the known finding `marker-literal-with-blank-hash-cut-as-comment`) and
-the marker text neither starts nor ends with a blank (`MarkerEnds`; true of every printed marker, not derived here).
+(`in` / `not in`, `~=`, `platform_release`); (5) one side condition on the printed text kept as a hypothesis: no ` #` in it
+(`NoComment`; FALSE without it: the known finding `marker-literal-with-blank-hash-cut-as-comment`); that the marker
+text neither starts nor ends with a blank is derived from the printer (`markerEnds_domain`).
 The statement is FALSE of the code without the side conditions named there: see the counterexample theorem (same
 witness as the check's corpus); three former counterexamples, repaired in poetry-core since, are kept as regression
 theorems.
@@ -322,10 +322,16 @@ theorem dep_roundtrip_registry_ne (d : Dep) (rs : List RC) (v : Version) (h : Re
   rw [← b5, hc]
   exact heqv p hp hreg
 
-/-- the marker text as printed: neither starts with a blank nor ends with white space (true of every `str(marker)`;
-kept as a side condition, not derived from the printer here) -/
+/-- the marker text as printed neither starts with a blank nor ends with white space -/
 def MarkerEnds (m : M) : Prop :=
   ∀ s, m.toStr = .ok s → skipWs s.toList = s.toList ∧ ∃ p z, s.toList = p ++ [z] ∧ isSpace z = false
+
+/-- **`MarkerEnds` holds of every marker of the domain that has a text** (derived from `__str__`: the text starts with a
+variable name, a quote or `(` and ends with a quote, a variable name or `)`) -/
+theorem markerEnds_domain {E : Env} {ex : List String} (hX : E.extras = some ex) {X Y Z : Nat} (hE : EnvPy E X Y Z)
+    {m : M} {syn : Syn} (hg : M.Good (FullInvLeaf E) m) (hsyn : M.toSyn m = some syn) : MarkerEnds m :=
+  fun s hs => toStr_ends (leafSpec_fullInv hX hE (pairSound_py hE)) (printOK_fullInv hX)
+    (fun l hl => lexable_fullInv l hl) hg hsyn s hs
 
 /-- **round trip of a registry dependency WITH a marker, on the full comparison-operator domain of C13**
 (`FullInvLeaf E`: quotable string / `extra` leaves, `python_version <op> "X.Y"`, `python_full_version <op> "X.Y.Z"`,
@@ -336,7 +342,7 @@ soundness are used as proved; no leaf-level hypothesis. -/
 theorem dep_roundtrip_registry_marker (d : Dep) (ts : List (List Char)) (h : RegWF d) (hb : CBody d ts)
     {E : Env} {ex : List String} (hX : E.extras = some ex) {X Y Z : Nat} (hE : EnvPy E X Y Z)
     (hg : M.Good (FullInvLeaf E) d.marker) (syn : Syn) (hsyn : M.toSyn d.marker = some syn)
-    (hends : MarkerEnds d.marker) (hany : d.marker.isAny = false) (hne : d.marker.isEmpty = false)
+    (hany : d.marker.isAny = false) (hne : d.marker.isEmpty = false)
     (xs : Option (List (List (String × String)))) (hx : convertMarkersFor "extra" d.marker = .ok xs)
     (hnc : ∀ t, d.toPep508 = .ok t → NoComment t.toList) :
     ∃ t, d.toPep508 = .ok t ∧ ∀ d', createFromPep508 t = .ok d' →
@@ -345,7 +351,7 @@ theorem dep_roundtrip_registry_marker (d : Dep) (ts : List (List Char)) (h : Reg
       d'.marker.validate E = d.marker.validate E := by
   have S := leafSpec_fullInv hX hE (pairSound_py hE)
   obtain ⟨s, hs1, hs2, _⟩ := M.parseText_toStr S (printOK_fullInv hX) (fun l hl => lexable_fullInv l hl) hg hsyn
-  obtain ⟨he1, he2⟩ := hends s hs1
+  obtain ⟨he1, he2⟩ := markerEnds_domain hX hE hg hsyn s hs1
   have hmt : MText d.marker s syn := ⟨hs1, ⟨he1, by rw [String.ofList_toList]; exact hs2⟩, he2⟩
   obtain ⟨t, htp, hr⟩ := registry_print_reparse_marker d ts h hb hany hne s syn hmt xs hx hnc
   refine ⟨t, htp, ?_⟩
@@ -369,17 +375,11 @@ private theorem mPy_str : M.toStr mPy = .ok "python_version >= \"3.8\"" := by
   | ok b => rw [hh] at this; simp [Except.toOption] at this; rw [this]
 
 example : RegWF exDepM ∧ envPy.extras = some [] ∧ EnvPy envPy 3 8 1 ∧ M.Good (FullInvLeaf envPy) exDepM.marker ∧
-    (∃ syn, M.toSyn exDepM.marker = some syn) ∧ MarkerEnds exDepM.marker ∧ exDepM.marker.isAny = false ∧
+    (∃ syn, M.toSyn exDepM.marker = some syn) ∧ exDepM.marker.isAny = false ∧
     exDepM.marker.isEmpty = false ∧ convertMarkersFor "extra" exDepM.marker = .ok none := by
-  refine ⟨{ exDep_wf with }, rfl, ⟨by decide +kernel, by decide +kernel⟩, ?_, ⟨_, rfl⟩, ?_, rfl, rfl, ?_⟩
+  refine ⟨{ exDep_wf with }, rfl, ⟨by decide +kernel, by decide +kernel⟩, ?_, ⟨_, rfl⟩, rfl, rfl, ?_⟩
   · show FullInvLeaf envPy _
     exact Or.inr (Or.inl ⟨.ge, ">=", 3, 8, by decide, rfl⟩)
-  · intro s hs
-    have hs' : M.toStr mPy = .ok s := hs
-    rw [mPy_str] at hs'
-    injection hs' with hs'
-    subst hs'
-    exact ⟨by decide, "python_version >= \"3.8".toList, '"', by decide, by decide⟩
   · have h : dnf defaultFuel [] mPy = .ok mPy := by
       unfold defaultFuel mPy
       rw [dnf]
